@@ -547,6 +547,20 @@ class FluidPropertyPolynominal(FluidProperty):
         """
         return self.prop_int_getter(upper_limit_arg) - self.prop_int_getter(lower_limit_arg)
 
+    def to_dict(self):
+        # the numpy polynomials are not JSON serializable, their coefficients are
+        d = super().to_dict()
+        d["prop_getter"] = self.prop_getter.coeffs
+        d["prop_int_getter"] = self.prop_int_getter.coeffs
+        return d
+
+    @classmethod
+    def from_dict(cls, d):
+        obj = super().from_dict(d)
+        obj.prop_getter = np.poly1d(np.asarray(obj.prop_getter, dtype=np.float64))
+        obj.prop_int_getter = np.poly1d(np.asarray(obj.prop_int_getter, dtype=np.float64))
+        return obj
+
     @classmethod
     def from_path(cls, path, polynominal_degree):
         """
